@@ -12,7 +12,8 @@ Definition toy : fops :=
   {| F := Z; Feqb := Z.eqb; fin := fun _ => true;
      show_float := show_int; read_float := parse_int;
      fmt10 := show_int; round10 := fun z => z; close10 := Z.eqb;
-     cam_canon := fun s => option_map show_int (parse_int s) |}.
+     cam_canon := fun s => option_map show_int (parse_int s);
+     path_norm := fun s => match s with "."%char :: "/"%char :: r => r | _ => s end |}.
 
 Lemma toy_ok : fops_ok toy.
 Proof.
